@@ -30,8 +30,6 @@ def _sl(roi):
 
 def one_pair(mon: Monitor, rng: random.Random) -> None:
     from odc.geo.overlap import compute_reproject_roi
-    from odc.geo.roi import roi_is_empty
-    from odc.geo.warp import rio_reproject
 
     ttol = rng.choice([0.05, 0.05, 0.01])
     stol = rng.choice([1e-3, 1e-3, 1e-3, 1e-2, 1e-4])
@@ -40,12 +38,32 @@ def one_pair(mon: Monitor, rng: random.Random) -> None:
     ny, nx = dst.shape
     wit = lambda extra=None: {"src": gen.gbox_desc(src), "dst": gen.gbox_desc(dst), "kind": kind, "ttol": ttol, "stol": stol, "P_dst_to_src": label["P"], **(extra or {})}
     tight = rng.choice([{}, {}, {"padding": 0}, {"align": 0}])
+    sig = hsig("p", gen.aff6(src.affine), (H, W), gen.aff6(dst.affine), (ny, nx), ttol, stol)
+    nprng = np.random.default_rng(rng.randint(0, 2**31))
     ri, e = call(compute_reproject_roi, src, dst, ttol=ttol, stol=stol, **tight)
     if e is not None:
         return mon.fail("paste_ok", wit({"exc": e}), key="roi-raises")
-    sig = hsig("p", gen.aff6(src.affine), (H, W), gen.aff6(dst.affine), (ny, nx), ttol, stol)
+    _judge_plan(mon, rng, nprng, ri, src, dst, kind, label, ttol, stol, wit, sig, labelled=True, dtypes=DTYPES)
+    # the same pair planned with read padding / alignment requested: whatever such a plan *reports* is held to the same statement (a plan that says "paste" with factor one
+    # must be executable as a paste and equal the warp; with a larger factor its source region must be the destination region scaled)
+    if rng.random() < 0.35:
+        kw = rng.choice([{"padding": 1}, {"padding": 3}, {"align": 2}, {"align": 4}, {"align": 16}, {"padding": 1, "align": 4}, {"padding": 2, "align": 8}])
+        ri2, e = call(compute_reproject_roi, src, dst, ttol=ttol, stol=stol, **kw)
+        if e is not None:
+            return mon.fail("paste_ok", wit({"exc": e, "keywords": kw}), key="roi-raises")
+        w2 = lambda extra=None: wit({"keywords": kw, **(extra or {})})
+        mon.ok("plan.padded", cls="reports-paste" if ri2.paste_ok else "reports-no-paste")
+        _judge_plan(mon, rng, nprng, ri2, src, dst, kind, label, ttol, stol, w2, hsig(sig, repr(kw)), labelled=False, dtypes=["uint8", "int8", "float32", "bool"])
+
+
+def _judge_plan(mon, rng, nprng, ri, src, dst, kind, label, ttol, stol, wit, sig, labelled, dtypes) -> None:
+    from odc.geo.roi import roi_is_empty
+    from odc.geo.warp import rio_reproject
+
+    H, W = src.shape
+    ny, nx = dst.shape
     # ---- paste-ability is reported exactly for integer scale + whole-pixel shift within tolerance
-    if label["paste"] is not None:
+    if label["paste"] is not None and (labelled or (ri.paste_ok and not label["paste"])):
         mon.check(bool(ri.paste_ok) == label["paste"], "paste_ok", lambda: wit({"paste_ok": ri.paste_ok, "expected": label["paste"], "roi_src": _sl(ri.roi_src), "roi_dst": _sl(ri.roi_dst)}),
                   key="paste-ok-wrong" + ("-accepts" if ri.paste_ok else "-rejects"), cls=f"{kind}|{'paste' if label['paste'] else 'no-paste'}" + ("" if stol == 1e-3 else f"|stol={stol:g}"), sig=sig, sample=wit({"paste_ok": ri.paste_ok}))
     if not ri.paste_ok:
@@ -67,8 +85,7 @@ def one_pair(mon: Monitor, rng: random.Random) -> None:
         cls_place = "disjoint"
     else:
         cls_place = "overlap"
-    nprng = np.random.default_rng(rng.randint(0, 2**31))
-    for dtype in DTYPES:
+    for dtype in dtypes:
         if dtype == "bool":
             data = nprng.random((H, W)) > 0.5
             nodata = None
@@ -116,7 +133,7 @@ def run(mon: Monitor, tier: str, seed: int, shard: int, nshards: int) -> None:
     mon.case = None
     for pt, k in [("paste_ok", 1000), ("paste==warp", 2000), ("paste.shrink", 50), ("paste_ok|subpix|paste", 30), ("paste_ok|subpix|no-paste", 30), ("paste_ok|rot|no-paste", 50),
                   ("paste_ok|fscale|no-paste", 50), ("paste_ok|scale|paste", 30), ("paste_ok|scale|no-paste", 10), ("paste_ok|scale|paste|stol=0.01", 5), ("paste_ok|scale|paste|stol=0.0001", 5), ("paste_ok|mirror|paste", 50),
-                  ("paste==warp|int8|overlap|plain", 30), ("paste==warp|bool|overlap|plain", 30), ("paste==warp|float64|overlap|mirror", 10), ("paste==warp|uint16|disjoint|plain", 10)]:
+                  ("paste==warp|int8|overlap|plain", 30), ("paste==warp|bool|overlap|plain", 30), ("paste==warp|float64|overlap|mirror", 10), ("paste==warp|uint16|disjoint|plain", 10), ("plan.padded", 300)]:
         mon.floor(pt, k)
 
 
